@@ -10,4 +10,4 @@ struct FileChecksum FileSystem_getFileChecksum(struct FileSystem *self, vstr *pa
   __CPROVER_assert(path == g_path, "[P:C13] the checksum is taken of the same path");
   g_ck_calls++; return g_inner_ck; }
 
-static inline struct FileChecksumHasherMD5 verif_hasher_new(vstr *path) { struct FileChecksumHasherMD5 h; g_hash_src = path->ptr; return h; }
+static inline struct FileChecksumHasherMD5 verif_hasher_new(vstr *path) { struct FileChecksumHasherMD5 h; g_hash_src = path->ptr; g_hash_len = path->len; return h; }
